@@ -288,6 +288,8 @@ def run(pid, tier):
             states += r["distinct"]
             trans += r["generated"]
             if r["rc"] == -9:
+                if C.within_budget(r, tier):
+                    continue
                 raise C.Inconclusive("exhaustive TLC run timed out: %s" % r["cfg"])
             inv, dead = C.tlc_violations(r["out"])
             if r.get("live"):
@@ -343,7 +345,7 @@ def run(pid, tier):
             traces_validated_against_impl=len(outs) - len(set(v[1] for v in mine)),
             samples=[{"tlc_walk_replayed": sample_walk}, {"recorded_trace": sample_trace}],
             exhaustive=all("No error has been found" in r["out"] for r in exh),
-            exhaustive_configs=[dict(r["cfg"], distinct=r["distinct"], generated=r["generated"], wall=round(r["wall"], 1)) for r in exh],
+            exhaustive_configs=[dict(r["cfg"], distinct=r["distinct"], generated=r["generated"], wall=round(r["wall"], 1), complete=not r.get("incomplete", False)) for r in exh],
             walks_replayed=nwalks, walks_with_drift=len([d for d in drift if d[0][0] in "wv"]),
             transition_covers=cover_info,
             drift_examples=[d[1] for d in drift[:3]],
